@@ -12,7 +12,7 @@ def plan(ctx):
             continue
         obs.append(Obligation(f"engine_calls.{fn}", "xh", "c05", "engine_calls", param={"fn": fn}, timeout=T,
                               bounds="flag string: every subset of {i,m,s,x} in lower or upper case, or None, or omitted (symbolic); the stubbed engine reports 0..4 matches (symbolic); clock readings are arbitrary non-decreasing instants (symbolic increments 0..10 s); every re/regex module and precompiled pattern reachable from functions.py is stubbed",
-                              desc=f"{fn}: every entry into the regex engine carries timeout in (0, 0.1]; at most 2 engine calls per builtin call"))
+                              desc=f"{fn}: every entry into a regular-expression engine carries timeout in [0, 0.1]; at most 2 engine calls per builtin call"))
     return {
         "obligations": obs, "uncovered": uncovered,
         "explanation": "REDUCED SCOPE: wall-clock behaviour of the `regex` C engine cannot be encoded. Decided with CrossHair (z3): with "
